@@ -12,7 +12,29 @@
 
    The model mirrors /repo AFTER the fix commits b4cfd8a, 4d56b95, 8cd7191, 3fe86ea (the defects they
    repair were found by this check: known_findings.d/C12.json, status "fixed"); the statements that
-   were refuted for the earlier code are now theorems. *)
+   were refuted for the earlier code are now theorems.
+
+   SCOPE OF EVERY THEOREM BELOW (what [run] covers and what it does not):
+   * the modelled fragment only: as soon as a run leaves it the model sets the flag [s_unmod] and from
+     then on does NOT follow the C code (any SetEncodings naming an encoding other than Raw / CopyRect /
+     Zlib / the xvp pseudo-encoding, any SetPixelFormat / SetDesktopSize / TextChat body, a partial
+     update request, a file name other than the two scripted ones, a WebSocket or TLS first byte).  The
+     statements remain true of the model after that point but say nothing about libvncserver there;
+     the correspondence run skips such cases (counted in the evidence).
+   * fixed configuration of the screen: application-driven loop (backgroundLoop = FALSE),
+     deferUpdateTime = deferPtrUpdateTime = 0 (the deferred ptrAddEvent call site of rfbUpdateClient is
+     not modelled), handleEventsEagerly = FALSE, rfbShutdownServer(screen, TRUE) only, no extensions
+     (no extension newClient / close hooks), no file-transfer quota denial, true-colour server format.
+   * connections that reach rfbNewClient by another route (reverse connections, UDP, inetd, the httpd
+     proxy hand-over), WebSocket upgrades and the rfbSetNonBlocking failure exit are NOT in the model;
+     they are TESTED by the specification oracle only (props/C12.py, transport sessions).
+   * application calls are made on clients the application still owns: an operation naming a freed or
+     absent connection is a no-op in the model (C would dereference a dangling pointer).
+   * "no teardown re-locks a mutex it holds" is NOT a theorem: after the fixes the model never sets a
+     lock flag, so the statement would be vacuous; the clause is TESTED (the harness reports a second
+     lock of a held mutex as HUNG on every correspondence / sweep case).
+   * memory: the ledger [p_res] holds the resources of the modelled encoders only (see
+     [gone_release_sites]); everything else a connection allocates is covered by LeakSanitizer only. *)
 From Coq Require Import ZArith List Bool.
 From LV Require Import Gen.Consts_C12 Session.LifecycleModel Session.LifecycleProofs.
 Import ListNotations.
@@ -28,10 +50,6 @@ Theorem C12_gone_once_invariant : forall cfg ops k c, get (run cfg ops) k = Some
   (l_freed (c_life c) = false ->
      l_gone (c_life c) = 0%nat /\ l_close (c_life c) = (if l_open (c_life c) then 0%nat else 1%nat)).
 Proof. exact exactly_once_invariant. Qed.
-
-(* --- teardown completes: no operation sequence makes the library lock a mutex it already holds *)
-Theorem C12_no_deadlock : forall cfg ops, s_hung (run cfg ops) = false.
-Proof. exact never_blocks. Qed.
 
 (* --- "by the time the server is idle": after any history, one more rfbProcessEvents leaves every
    connection either still open or completely torn down *)
@@ -71,12 +89,21 @@ Theorem C12_gone_once_cleanup : forall cfg ops,
     l_freed (c_life c) = true /\ l_close (c_life c) = 1%nat /\ l_gone (c_life c) = l_new (c_life c).
 Proof. exact torn_down_after_cleanup. Qed.
 
-(* --- released: nothing is ever left behind by a teardown, a freed record holds nothing *)
+(* --- released (ledger of the modelled resources): every kind of resource of [res] has its release
+   statement in rfbClientConnectionGone ([gone_release_sites], statement by statement), so no teardown
+   leaves anything in the leak list and a freed record holds nothing.  This is bookkeeping inside the
+   model (it breaks when a resource kind is added to [res] without a release site); the actual memory
+   release of the implementation is tested with LeakSanitizer. *)
+Theorem C12_every_resource_has_a_release_site : forall r, gone_releases r = true.
+Proof. exact every_resource_has_a_release_site. Qed.
+
 Theorem C12_released : forall cfg ops k c, get (run cfg ops) k = Some c ->
   c_leak c = [] /\ (l_freed (c_life c) = true -> p_res (c_proto c) = []).
 Proof. exact released_after_gone. Qed.
 
-(* scaled-screen references: rfbClientConnectionGone gives back exactly the reference the client holds -
+(* scaled-screen references (ONE-STEP statement about [connection_gone], not a reachable-state invariant:
+   "reference count of every screen of the chain = number of live records using it" is checked by the
+   oracle on every observation, props/C12.py, not proved): rfbClientConnectionGone gives back exactly the reference the client holds -
    on the scaled screen it had switched to, or on the unscaled one - and touches no other count;
    rfbCloseClient touches none *)
 Theorem C12_scaled_reference_released : forall k s c, s_hung s = false -> live s k = Some c ->
@@ -109,6 +136,28 @@ Proof. exact listed_iff_not_freed. Qed.
 Theorem C12_iteration_open_only : forall s k, is_open s k = true ->
   exists c, get s k = Some c /\ l_freed (c_life c) = false /\ l_open (c_life c) = true.
 Proof. exact iteration_yields_open_only. Qed.
+
+(* the iterator as a function ([iter_clients] = the client list filtered by "socket open"): in every
+   reachable state it yields exactly the records that are live and open, and a record that has been
+   freed never appears again, whatever happens afterwards *)
+Theorem C12_iteration_exact : forall cfg ops k,
+  In k (iter_clients (run cfg ops)) <->
+  exists c, get (run cfg ops) k = Some c /\ l_freed (c_life c) = false /\ l_open (c_life c) = true.
+Proof. exact iteration_exact. Qed.
+
+Theorem C12_freed_never_iterated_again : forall cfg ops ops' k c,
+  get (run cfg ops) k = Some c -> l_freed (c_life c) = true ->
+  ~ In k (iter_clients (run cfg (ops ++ ops'))).
+Proof. exact freed_never_iterated_again. Qed.
+
+(* --- descriptor set: in every reachable state the descriptor of every open client is in allFds and
+   not above maxFd - closing, tearing down or accepting other connections (FD_CLR, the maxFd loop of
+   rfbCloseClient, rfbShutdownSockets) never drops it.  (Record-level frame: C12_others_untouched*.
+   The byte stream other clients receive is compared by the oracle only: witness connection.) *)
+Theorem C12_open_clients_stay_in_fd_set : forall cfg ops k c,
+  get (run cfg ops) k = Some c -> l_freed (c_life c) = false -> l_open (c_life c) = true ->
+  In (c_fd c) (s_allfds (run cfg ops)) /\ (c_fd c <= s_maxfd (run cfg ops))%Z.
+Proof. exact open_clients_stay_in_fd_set. Qed.
 
 (* --- others untouched: tearing down connection k, handling one of its messages (SetScale included),
    sending it an update or reaping it leaves the record - protocol state, resources, counters, input
